@@ -16,7 +16,7 @@ class Contract:
     def __init__(self, qual, kind='function', params=None, returns='none', requires=(), ensures=(), raises=(),
                  loops=None, inline=(), theories=(), refines=None, modifies=(), yields=None, decreases=None,
                  props=(), eq_on_ref=None, setter=False, joins=None, closure_of=None, free=None, trusted=False, note='',
-                 exc_ensures=None, ghost_out=None, fresh_result=False, globals_=None, replay=None):
+                 exc_ensures=None, ghost_out=None, fresh_result=False, globals_=None, replay=None, lists=None):
         self.qual = qual
         self.kind = kind              # function | method | property | generator
         self.params = dict(params or {})
@@ -42,6 +42,7 @@ class Contract:
         self.exc_ensures = dict(exc_ensures or {})
         self.fresh_result = fresh_result
         self.globals_ = dict(globals_ or {})
+        self.lists = list(lists) if lists is not None else None   # list objects a call may change (frame for all others)
         self.replay = replay          # dict(observe={name: spec expr over the entry state}, script=python template)
         self._parsed = {}
 
